@@ -64,7 +64,7 @@ def gen_case(rng: random.Random, tier: str) -> dict:
         if r < 0.05:
             ops.append({"op": "siblings", "sync": rng.random() < 0.5, "runner": rng.randrange(2), "x": rng.randint(0, 2), "cfg": gen.gen_async_cfg(rng), "outer_bind": rng.random() < 0.3})
         elif r < 0.12:
-            ops.append({"op": "mapnode", "renamed": rng.random() < 0.5, "clone": rng.choice([True, False, ["y"]]), "xs": [rng.randint(0, 3) for _ in range(rng.randint(1, 3))], "sync": rng.random() < 0.5, "runner": rng.randrange(2), "cfg": gen.gen_async_cfg(rng)})
+            ops.append({"op": "mapnode", "mo": rng.choice(["x", "xy"]), "renamed": rng.random() < 0.5, "clone": rng.choice([True, False, ["y"]]), "xs": [rng.randint(0, 3) for _ in range(rng.randint(1, 3))], "sync": rng.random() < 0.5, "runner": rng.randrange(2), "cfg": gen.gen_async_cfg(rng)})
         elif r < 0.25:
             ops.append({"op": "sync", "g": rng.randrange(2), "runner": rng.randrange(2), "x": rng.randint(0, 2), "kw": rng.random() < 0.4, "ep": rng.random() < 0.3})
         elif r < 0.45:
@@ -94,6 +94,25 @@ def gen_case(rng: random.Random, tier: str) -> dict:
     return {"progs": progs, "ops": ops, "cache": cache}
 
 
+def _mapnode_spec(clone, ren: bool, mo: str) -> dict:
+    """A mapping node 'mp' whose inner graph binds an object. ren: the wrapper input of the binding is renamed; mo: mapped over x, or over
+    x and y (zip) - with clone a list only when y is broadcast."""
+    cl = clone if not (isinstance(clone, list) and mo == "xy") else False
+    return {"name": "mo", "nodes": [{"kind": "graph", "name": "mp", "map_over": ["x"] if mo == "x" else ["x", "y"], "map_mode": "zip", "clone": cl,
+                                     "renames": [{"inputs": {"cfgi": "cfg_outer_name"}}] if ren else [],
+                                     "graph": {"name": "mp", "bind": {"cfgi": {"inner": [7]}}, "nodes": [
+                                         {"kind": "fn", "name": "mf", "params": [{"name": "x"}, {"name": "y"}, {"name": "cfgi"}], "outs": ["mo_o"]}], "order": [0]}}], "order": [0]}
+
+
+def _mapnode_alone(clone, ren: bool, mo: str, flav: str, inp: dict) -> list:
+    rt = Runtime(schedule={"mode": "delay", "seed": 0, "choices": [0]})
+    with patched(rt):
+        graph, _ = build(_mapnode_spec(clone, ren, mo), rt, flav)
+        if flav == "sync":
+            return _summ(call_sync(rt, lambda: make_runner("sync", rt).run(graph, inp)))
+        return _summ(call_async(rt, [lambda: make_runner("async", rt).run(graph, inp)])[0])
+
+
 class _Pool:
     """Long-lived objects of one history: compiled graphs (sync and async flavour), runners, bound object."""
 
@@ -114,13 +133,11 @@ class _Pool:
         for clone_key, clone in (("T", True), ("F", False), ("L", ["y"])):
             for flav in ("sync", "async"):
                 for ren in (False, True):
-                    # (ren: the wrapper's input for the inner binding is renamed - the binding is then surfaced under the new name)
-                    spec = {"name": "mo", "nodes": [{"kind": "graph", "name": "mp", "map_over": ["x"], "clone": clone, "renames": [{"inputs": {"cfgi": "cfg_outer_name"}}] if ren else [],
-                                                     "graph": {"name": "mp", "bind": {"cfgi": {"inner": [7]}}, "nodes": [
-                        {"kind": "fn", "name": "mf", "params": [{"name": "x"}, {"name": "y"}, {"name": "cfgi"}], "outs": ["mo_o"]}], "order": [0]}}], "order": [0]}
-                    graph, comp = build(spec, rt, flav)
-                    self.comps.append(comp)
-                    self.mapnode[(clone_key, flav, ren)] = (graph, comp.nodes["mp"].graph.inputs.bound["cfgi"])
+                    for mo in ("x", "xy"):
+                        # (every variant's mapping node carries the SAME node name: a node name does not identify a configuration)
+                        graph, comp = build(_mapnode_spec(clone, ren, mo), rt, flav)
+                        self.comps.append(comp)
+                        self.mapnode[(clone_key, flav, ren, mo)] = (graph, comp.nodes["mp"].graph.inputs.bound["cfgi"])
         # two sibling nested graphs that each bind the SAME parameter name to their own object (two agents, each with its own client):
         # every function receives the object bound on ITS graph; an explicit binding on the enclosing graph overrides both
         self.siblings: dict[tuple, tuple] = {}
@@ -274,8 +291,9 @@ def run_case(doc: dict) -> dict:
             elif op["op"] == "mapnode":
                 flav = "sync" if op["sync"] else "async"
                 ck = "T" if op["clone"] is True else ("F" if op["clone"] is False else "L")
-                g, bound_obj = pool.mapnode[(ck, flav, bool(op.get("renamed")))]
-                inp = {"x": list(op["xs"]), "y": [5, 6]}
+                mo = op.get("mo", "x")
+                g, bound_obj = pool.mapnode[(ck, flav, bool(op.get("renamed")), mo)]
+                inp = {"x": list(op["xs"]), "y": [5, 6]} if mo == "x" else {"x": list(op["xs"]), "y": [50 + j for j in range(len(op["xs"]))]}
                 h0 = len(rt.history)
                 if flav == "sync":
                     rt.schedule = {}
@@ -287,6 +305,9 @@ def run_case(doc: dict) -> dict:
                 res["runs"] += 1
                 if out["status"] != "completed":
                     viol.append((f"{tag}:mapping_node_run_not_completed", {"status": out["status"], "error": out["error"]}))
+                exp = _mapnode_alone(op["clone"], bool(op.get("renamed")), mo, flav, copy.deepcopy(inp))
+                res["runs"] += 1
+                _compare(tag, _summ(out), exp, viol)
                 for h in rt.history[h0:]:
                     if h["k"] == "enter" and h["n"] == "mf" and h["objs"].get("cfgi") is not bound_obj:
                         viol.append((f"{tag}:inner_bound_value_copied_by_mapping_node", {"clone": op["clone"]}))
